@@ -7,7 +7,7 @@ use crate::stream::{ReadStream, WriteStream};
 
 /// Delay stream. Good for syncing up streams.
 #[derive(rustradio_macros::Block)]
-#[rustradio(crate)]
+#[rustradio(crate, noeof)]
 pub struct Delay<T: Copy> {
     delay: usize,
     current_delay: usize,
@@ -16,6 +16,14 @@ pub struct Delay<T: Copy> {
     src: ReadStream<T>,
     #[rustradio(out)]
     dst: WriteStream<T>,
+}
+
+impl<T: Copy> crate::block::BlockEOF for Delay<T> {
+    /// Not done while part of the delay is still to be emitted (the output
+    /// stream was full), even if the input has ended and is empty.
+    fn eof(&mut self) -> bool {
+        self.current_delay == 0 && self.src.eof()
+    }
 }
 
 impl<T: Copy> Delay<T> {
